@@ -66,6 +66,18 @@ CLAIMED = {
          "Lean theorems over the same model for ARBITRARY byte strings and positions: every read call returns a value or one of the documented errors (the explicit crash outcome is unreachable), 0 <= pos <= pos' <= len, a failed fixed-width read consumes nothing, the 7-bit decoder consumes at most 5 bytes and rejects a 5th byte > 15, a successful ReadBytes/ReadString returns exactly the announced bytes from the right offset, the size passed to make is <= the remaining input (0 for every other call), any sequence of calls keeps the invariant; decide-proved counterexample for the pre-fix allocation. Tie to /repo: every byte string of length <= 2 x every call at every position, structured hostile inputs (truncated values, over-long 7-bit groups, prefixes up to 2^31-1, negative sizes) and random call sequences on the real reader: outcome, error identity, Position/Len and an allocation meter (runtime.MemStats) compared with the model and judged by an independent oracle",
          "trusted: MemStats allocation meter with slack 2*remaining+64 for size-class rounding; make of n <= remaining bytes does not fail; Lean kernel, axioms in evidence, driver compilation, harness+generators",
          "machine-checked proof (Lean 4) + differential correspondence on arbitrary bytes", "DESIGN.md §2 C12"),
+ "C04": ("lean-proof+virtual-time",
+         "Lean theorems over a timed LTS of cachex (P workers, bounded job queue, shard locks, futures with the three publication points of setValue, Load/Get2/Set/Future.Get, sweep; ghost job location): a Load that finds a loading or fresh entry creates no future and no job; in every reachable state at most one unresolved load-future per key not displaced by Set, hence at most one running loader per key unless Set intervened; a future is resolved once, by the worker holding its job with the pair its loader returned for the key it was created for (or by Set) and never changes, so all Gets agree; shard index in range for every 64-bit pattern, all ten key kinds and every power-of-two count, convertPowerOfTwo = least power of two >= n. Tie to /repo: scripted scenarios on the real cache under the Go runtime's virtual clock (loaders with scripted durations/results, all key kinds); the compiled model in monitor mode must reproduce which future each Load returns, every returned pair and instant and the loader log; stress phase with real goroutines; independent oracle",
+         "trusted: a mutex critical section is one atomic step, Go channel/select semantics, the fake clock (GOMAXPROCS<=2), finalizer shutdown out of scope; Lean kernel, axioms in evidence, driver compilation, harness",
+         "machine-checked proof (Lean 4) + trace inclusion of virtual-time runs", "DESIGN.md §2 C04"),
+ "C05": ("lean-proof+virtual-time",
+         "Lean theorems (decision logic stated outright for every state, clock and both expiries, constants 2*expire and 4*normalExpire read from the regenerated facts): status table; fresh => served without a job; expired => the stale future is returned immediately and exactly one job with it as predecessor is created; while refreshing no further job and the stale result only while < 2E; a rotted result is never returned by Load, fetchIfGood or Get2 (newer future, or (nil,nil) when nothing is in flight); the refresh replaces the entry; the sweep is invisible: bisimulation up to rotted entries for all client steps, time steps and the sweep. Tie to /repo: virtual-time scenarios with call instants at u+E, u+2E +-1ns, sweeps at multiples of 4E, value and error results, exhaustive boundary table; monitor comparison + independent oracle",
+         "trusted: as C04; oracle skips a check when events tie in virtual time",
+         "machine-checked proof (Lean 4) + trace inclusion of virtual-time runs", "DESIGN.md §2 C05"),
+ "C06": ("lean-proof+virtual-time",
+         "Lean theorems: for all P >= 1, J >= 1 every reachable state of the (fixed) model in which no client/worker/loader step is enabled has every call returned and every future resolved (invariants: a lock holder always has an enabled step; every unresolved load-future's job is in exactly one of creator-about-to-send / queue / running worker); a measure strictly decreasing on every client, worker and loader step bounds the work between clock events; decide-proved deadlock of the old send-under-lock variant (P=1, J=1) and progress of the same schedule on the fixed code. Tie to /repo: burst scenarios (J+P+3 Loads, pending sweep tick, up to 40 rounds) on the real cache under the virtual clock with hang detection, regression corpus for the fixed deadlock; monitor comparison + oracle (no hang)",
+         "trusted: loaders return (hypothesis of the property); as C04",
+         "machine-checked proof (Lean 4) + virtual-time burst scenarios with hang detection", "DESIGN.md §2 C06"),
 }
 NOT_CLAIMED = {}
 
